@@ -534,6 +534,69 @@ def run_lstsq(case, seed, R):
 
 
 # ---------------------------------------------------------------------------------------------
+# lstsq on independent but strongly correlated modes (conditioning alphabet)
+
+def zernike10(X, Y):
+    r = np.hypot(X, Y)
+    t = np.arctan2(Y, X)
+    R3 = 3 * r ** 3 - 2 * r
+    return np.asarray([np.ones_like(r), r * np.cos(t), r * np.sin(t), 2 * r * r - 1,
+                       r * r * np.sin(2 * t), r * r * np.cos(2 * t), R3 * np.sin(t), R3 * np.cos(t),
+                       r ** 3 * np.sin(3 * t), r ** 3 * np.cos(3 * t)], dtype=float)
+
+
+def cond_problem(case):
+    """(modes (K,ny,nx), invalid mask) of one member of the conditioning alphabet."""
+    fam, p = case['family'], case['param']
+    if fam == 'mono':            # monomials of total degree <= p on [0.5, 1]^2
+        X, Y = np.meshgrid(np.linspace(0.5, 1, 16), np.linspace(0.5, 1, 20))
+        modes = np.asarray([X ** i * Y ** j for i in range(p + 1) for j in range(p + 1) if i + j <= p])
+        inv = invalid_mask({'kind': case['mask']}, 20, 16)
+    elif fam == 'zernike-subaperture':    # Zernike 1..10 of the unit disk sampled on an off-centre disk of radius p
+        X, Y = np.meshgrid(0.3 + p * np.linspace(-1, 1, 20), 0.2 + p * np.linspace(-1, 1, 24))
+        modes = zernike10(X, Y)
+        inv = np.hypot(X - 0.3, Y - 0.2) > p * (1 + 1e-9)
+    elif fam == 'zernike-nanmask':        # unit-square grid, everything outside an off-centre disk of radius p invalid
+        X, Y = np.meshgrid(np.linspace(-1, 1, 36), np.linspace(-1, 1, 40))
+        modes = zernike10(X, Y)
+        inv = np.hypot(X - 0.3, Y - 0.2) > p
+    else:                        # near-duplicate: Legendre products plus a copy of the x mode perturbed by p * x^3
+        X, Y = np.meshgrid(np.linspace(-1, 1, 9), np.linspace(-1, 1, 7))
+        base = [np.ones_like(X), X, Y, 1.5 * X * X - 0.5, X * Y, 1.5 * Y * Y - 0.5]
+        modes = np.asarray(base[:2] + [X + p * X ** 3] + base[2:])
+        inv = invalid_mask({'kind': case['mask']}, 7, 9)
+    return modes, inv
+
+
+def run_lstsq_cond(case, seed, R):
+    modes, inv = cond_problem(case)
+    K, ny, nx = modes.shape
+    valid = ~inv
+    Bv = modes.reshape(K, -1).T[valid.ravel()]
+    if Bv.shape[0] < K or np.linalg.matrix_rank(Bv) < K:
+        R.outcome('rank-deficient-skipped')
+        return
+    s = np.linalg.svd(Bv, compute_uv=False)
+    cond = float(s[0] / s[-1])
+    if KTOL * EPS * cond > 1e-2:
+        R.outcome('too-ill-conditioned-skipped')
+        return
+    decade = int(round(np.log10(cond)))
+    fv = fill_values(case['fill'], int(inv.sum()))
+    sig = f'lstsq:cond~1e{decade}:{case["family"]}'
+    for cname, c in coef_sets(K, seed, 9, ints=False, dense_first=True):
+        c = np.asarray(c)
+        data = np.empty((ny, nx))
+        data[valid] = Bv @ c
+        data[inv] = fv
+        got = R.call(P.lstsq, modes.copy(), data, sig=sig + ':exception')
+        R.expect_close(got, c, KTOL * EPS * cond * float(np.linalg.norm(c)), sig,
+                       f'{case} coefs {cname}: cond(design matrix)={cond:.2e}, {Bv.shape[0]} valid samples, {K} modes')
+    R.nontrivial()
+    R.outcome(f'cond~1e{decade}')
+
+
+# ---------------------------------------------------------------------------------------------
 
 def plan(tier, seed):
     quick = tier == 'quick'
@@ -587,6 +650,14 @@ def plan(tier, seed):
                 for fl in (fills if mk['kind'] != 'none' else ['nan']):
                     ls_cases.append({'basis': b, 'ny': ny, 'nx': nx, 'mask': mk, 'fill': fl})
 
+    cc = []
+    for fl in ('nan', 'mixed'):
+        cc += [{'family': 'mono', 'param': d, 'mask': mk, 'fill': fl} for d in range(2, 9) for mk in ('none', 'ragged') if mk != 'none' or fl == 'nan']
+        cc += [{'family': 'zernike-subaperture', 'param': p, 'fill': fl} for p in (1, 0.5, 0.25, 0.1, 0.05, 0.02, 0.01, 0.005, 0.002, 0.001)]
+        cc += [{'family': 'zernike-nanmask', 'param': p, 'fill': fl} for p in (0.9, 0.7, 0.5, 0.4, 0.3, 0.2, 0.15)]
+        cc += [{'family': 'near-duplicate', 'param': p, 'mask': mk, 'fill': fl}
+               for p in (1e-1, 1e-2, 1e-3, 1e-4, 1e-5, 1e-6, 1e-7, 1e-8, 1e-9, 1e-10) for mk in ('none', 'ragged') if mk != 'none' or fl == 'nan']
+
     return [
         ScopeUnit('sum_of_2d_modes', sm_cases, run_sum_modes,
                   f'every mode count K in 1..{LMAX} x shapes {sm_shapes} x modes given as 3-D array / list of 2-D arrays x float64/float32; '
@@ -614,4 +685,9 @@ def plan(tier, seed):
                   'seeded dense; data = B c and B c + r (r orthogonal to the basis on exactly the valid samples, so any other sample selection changes the answer); '
                   f'modes as array and as list; for the dense vector and every mask other than the single-sample ones additionally data / mode stack / mode list in memory layouts {LAYOUTS[1:]}; masks leaving the basis rank-deficient on the valid samples (numpy matrix_rank) are counted under outcome '
                   '"rank-deficient-skipped" and not judged', reset=reset_all),
+        ScopeUnit('lstsq_conditioning', cc, run_lstsq_cond,
+                  'conditioning alphabet: independent but strongly correlated modes -- monomials of total degree 2..8 on [0.5,1]^2 (cond 2e2..1e9), Zernike 1..10 on shrinking '
+                  'off-centre sub-apertures (cond 1e1..2e9) and under off-centre circular NaN masks of a full grid, a near-duplicate mode x + p x^3 next to x (cond ~ 1/p, p = 1e-1..1e-10); '
+                  'with / without a ragged mask, NaN / mixed fills; dense vector + every unit vector; judged at k eps cond(design matrix) |c| with cond from numpy SVD of the valid rows; '
+                  'members with k eps cond > 1e-2 (cond > 4.5e10) are counted as "too-ill-conditioned-skipped" and not judged', reset=reset_all),
     ]
